@@ -25,10 +25,12 @@ Record call := mkCall {
 
 Record case := mkCase {
   c_costs : list Q; c_budget : Q;            (* the election as PRESENTED FIRST (scale 1, rank order) *)
-  c_ballots : list (list nat);               (* approval ballots of presentation 0 ([] for other ballot types) *)
+  c_ballots : list (list nat * nat);         (* approval ballots of presentation 0 with their multiplicities
+                                                ([] for other ballot types / electorates too large for nat) *)
   c_pk : list nat;                           (* kind of every presentation: 0 the first one, 1 voters permuted,
                                                 2 projects inserted in another order, 3 costs and budget scaled,
-                                                4 all three *)
+                                                4 all three, 5 the same election evaluated AFTER other elections
+                                                on the same Instance / profile / Project objects (process history) *)
   c_calls : list call
 }.
 
@@ -75,7 +77,7 @@ Definition tb_of (I : inst) (P : list aballot) (t : nat) : proj -> Q :=
 
 Definition phr_model (c : case) (t : nat) : option (list nat) :=
   let I := mkInst (c_costs c) (c_budget c) in
-  let P := map (fun b => mkA b 1) (c_ballots c) in
+  let P := map (fun b => mkA (fst b) (snd b)) (c_ballots c) in
   phragmen_res I P (tb_of I P t) (all_projects I) (zero_loads P) [].
 
 Definition model_ok (c : case) (k : call) : bool :=
@@ -90,7 +92,8 @@ Definition model_ok (c : case) (k : call) : bool :=
 
 (* failure codes
    1 repetition differs   2 hash seeds differ   3 voter order   4 project insertion order   5 scaling
-   6 combined presentation   7 malformed case (harness)   8 Phragmen outcome differs from Model/Phragmen.v *)
+   6 combined presentation   7 malformed case (harness)   8 Phragmen outcome differs from Model/Phragmen.v
+   9 the outcome depends on what was computed before on the same objects (process history) *)
 Definition check (c : case) : list nat :=
   let ks := c_calls c in
   flag (forallb twice_ok ks) 1
@@ -100,6 +103,7 @@ Definition check (c : case) : list nat :=
   ++ flag (forallb (pres_ok 3 (c_pk c)) ks) 5
   ++ flag (forallb (pres_ok 4 (c_pk c)) ks) 6
   ++ flag (forallb (shape_ok (c_pk c)) ks) 7
-  ++ flag (forallb (model_ok c) ks) 8.
+  ++ flag (forallb (model_ok c) ks) 8
+  ++ flag (forallb (pres_ok 5 (c_pk c)) ks) 9.
 
 Definition run (cs : list case) : list (nat * nat) := run_cases check 0 cs.
